@@ -37,6 +37,7 @@ func runC06(e *Env) {
 	ruleLatest(e, "C06.latest")
 	// the string entry points order the texts they are given: the parser maps the whole text to the compared fields
 	ruleSemGate(e, "C06.parse", "C06.parse")
+	ruleNoMatchRejects(e, "C06.parse", e.Fn("C06.parse", "sem", "unmarshalText"))
 	e.S.Floor("C06.parse", 18)
 	e.S.Floor("C06.latest", 3)
 	e.S.Floor("C06.core", 28)
